@@ -30,6 +30,7 @@ RX = {
     "reg": re.compile(r'reg \|-> (TRUE|FALSE)'), "count": re.compile(r'count \|-> (-?\d+)'),
     "wr": re.compile(r'wr \|-> \[p \|-> (TRUE|FALSE), w \|-> (TRUE|FALSE)\]'), "poll": re.compile(r'poll \|-> "(\w+)"'),
     "nclose": re.compile(r'nclose \|-> (\d+)'), "rcvd": re.compile(r'rcvd \|-> <<([^>]*)>>'),
+    "dresp": re.compile(r'dresp \|-> <<([^>]*)>>'), "dh": re.compile(r'dh \|-> "(\w+)"'),
 }
 
 def project(label):
@@ -41,6 +42,7 @@ def project(label):
             "upgraded": g("upgraded").group(1) == "TRUE", "reg": g("reg").group(1) == "TRUE", "count": int(g("count").group(1)),
             "wr": (wr.group(1) if cur == "p" else wr.group(2)) == "TRUE", "poll": g("poll").group(1), "nclose": int(g("nclose").group(1)),
             "nrcvd": 0 if rc == "" else len(rc.split(",")),
+            "dresp": g("dresp").group(1).strip().strip('"') if g("dresp") else "", "dret": (g("dh").group(1) == "none") if g("dh") else True,
             "_inclose": re.search(r'enter \|-> \{\}', label) is None or re.search(r'mid \|-> \{\}', label) is None}
 
 # ---- Registry.tla: functions over the session identities are printed as records [a |-> .., b |-> ..]
@@ -94,7 +96,7 @@ def main():
         x = act[b]
         if registry:
             return False
-        return proj[a]["_inclose"] and x is not None and (x["a"] in ("poll.overlap", "poll.abort", "peerclose")
+        return proj[a]["_inclose"] and x is not None and (x["a"] in ("poll.overlap", "poll.abort", "peerclose", "post.overlap", "post.abort")
                                                          or (x["a"] == "pollwrite" and x.get("ok") is False))
     skipped = 0
     for a in list(succ):
